@@ -610,26 +610,12 @@ theorem mem_save {P : List (Nat × List Nat)} {l : Line} : l ∈ save P ↔ ∃ 
   · rintro ⟨e, he, a, ha, rfl⟩; exact ⟨e, he, a, ha, rfl⟩
   · rintro ⟨e, he, a, ha, rfl⟩; exact ⟨e, he, a, ha, rfl⟩
 
-theorem load_of_no_long {file : List Line} (h : ∀ l ∈ file, l ≠ Line.long) : load file = file.filter Line.loads := by
-  unfold load
-  congr 1
-  induction file with
-  | nil => rfl
-  | cons x t ih =>
-    have hx : (x != Line.long) = true := by simpa using h x List.mem_cons_self
-    rw [List.takeWhile_cons, hx]
-    simp only [if_true]
-    rw [ih (fun l hl => h l (List.mem_cons_of_mem _ hl))]
-
 theorem load_save (P : List (Nat × List Nat)) : load (save P) = save P := by
-  rw [load_of_no_long]
-  · rw [List.filter_eq_self]
-    intro l hl
-    obtain ⟨e, _, a, _, rfl⟩ := mem_save.1 hl
-    rfl
-  · intro l hl
-    obtain ⟨e, _, a, _, rfl⟩ := mem_save.1 hl
-    simp
+  unfold load
+  rw [List.filter_eq_self]
+  intro l hl
+  obtain ⟨e, _, a, _, rfl⟩ := mem_save.1 hl
+  rfl
 
 theorem lastIdx_append (p : Nat) : ∀ (l1 l2 : List Line) (i : Nat) (acc : Option Nat),
     lastIdx p (l1 ++ l2) i acc = lastIdx p l2 (i + l1.length) (lastIdx p l1 i acc) := by
